@@ -1,6 +1,8 @@
 package fsm
 
 import (
+	"bytes"
+	"errors"
 	"github.com/canopy-network/canopy/lib"
 	"github.com/canopy-network/canopy/lib/crypto"
 	"google.golang.org/protobuf/types/known/anypb"
@@ -118,6 +120,12 @@ func (s *StateMachine) CheckTx(transaction []byte, txHash string, batchVerifier 
 	decodeStartTime := time.Now()
 	if err = lib.Unmarshal(transaction, tx); err != nil {
 		return
+	}
+	// accept only the canonical encoding: the transaction is identified (replay filter, indexer, order ids)
+	// by the hash of these raw bytes while its signature covers the re-marshalled form, so any other
+	// encoding of the same signed content would be a new transaction with a valid signature
+	if canonical, e := lib.Marshal(tx); e != nil || !bytes.Equal(canonical, transaction) {
+		return nil, lib.ErrUnmarshal(errors.New("transaction bytes are not the canonical encoding"))
 	}
 	// perform basic validations against the tx object
 	if err = tx.CheckBasic(); err != nil {
